@@ -420,6 +420,9 @@ def run(ctx):
     from . import protocol
     protocol.rule_corrector_typestate(ctx, 'R01.14')     # corrector kicks use forces of the current positions
     protocol.rule_jerk_loop_starts(ctx, 'R01.15')        # the jerk of test particles leaves out the same pairs as that of active particles
+    from . import jerkdomain
+    jerkdomain.rule_jerk_domain(ctx, 'R02.14')              # a pair in the jerk and not in the kick leaves a second-order error in the modified-kick schemes
+    jerkdomain.rule_jacobi_direct_domain(ctx, 'R02.15')     # kernels MODIFIEDKICK / LAZY integrate the same system as DEFAULT
     protocol.rule_leapfrog_live(ctx, 'R10.14')           # LEAPFROG is drift-kick-drift on the live particle
     from . import c12
     c12.rule_slices(ctx)     # R12.1: the position-only maps used by correctors and kernels are the posvel maps restricted to positions
